@@ -65,7 +65,9 @@ func genSendTok(r *Rng) string {
 		var b []byte
 		switch r.Intn(8) {
 		case 6: // as other implementations write a message without options: no fourth / third element at all
-			switch r.Intn(4) {
+			switch r.Intn(6) {
+			case 4, 5: // an option map whose chunk entry is the empty string: present, and empty
+				b = nArr(nStr([]byte("raw")), nInt(7), nMap(), nMap(nStr([]byte("chunk")), nStr(nil))).Enc()
 			case 0:
 				b = nArr(nStr([]byte("raw")), nInt(7), nMap()).Enc()
 			case 1:
@@ -165,6 +167,9 @@ func genTcpOp(r *Rng, st *int) string {
 		sz := r.Intn(50)
 		if r.Chance(20) {
 			sz = []int{2047, 2048, 2049, 4096, 10243}[r.Intn(5)]
+		}
+		if r.Chance(4) {
+			return "RAW(-;-)" // nothing to send: nothing may reach the wire
 		}
 		return fmt.Sprintf("RAW(%s;%s)", hx(r.Bytes(1+sz)), genFault(r, sz))
 	case 7:
